@@ -40,6 +40,7 @@ type Call struct {
 	Api   string `json:"api"` // options describe announce setup play record pause | sleep (not a call: let time pass)
 	Media int    `json:"media,omitempty"`
 	Ms    int    `json:"ms,omitempty"` // sleep
+	Got   bool   `json:"got,omitempty"` // sleep, abstract label: a UDP packet will have arrived when the liveness timer fires
 }
 
 // Mut is one mutation of the correct response.
@@ -82,6 +83,7 @@ type Script struct {
 	Accept     []Reaction  `json:"accept,omitempty"` // N-th accepted connection: what the server writes at once (M unused)
 	Model      bool        `json:"model,omitempty"`  // every reaction has an abstract label: compare with the model
 	Frames     bool        `json:"frames,omitempty"` // after a successful Play/Record exchange media data
+	Tun        string      `json:"tun,omitempty"`    // behaviour of the server during the tunnel handshake ("" = correct)
 	ConcClose  int         `json:"conc_close,omitempty"` // >0: Close() concurrently, that many ms after the call with this index+1 started … see runner
 	ConcAt     int         `json:"conc_at,omitempty"`
 }
